@@ -53,6 +53,15 @@ func (m *mutex) Lock() (err error) {
 	defer cancel()
 
 	err = m.m.Lock(ctx)
+	if err != nil {
+		// The etcd mutex may have created its key although Lock failed (e.g. the
+		// context expired while the response of the first request was in flight).
+		// Remove it, otherwise it blocks the other members until this member
+		// locks and unlocks again.
+		cleanCtx, cleanCancel := context.WithTimeout(context.Background(), m.timeout)
+		m.m.Unlock(cleanCtx)
+		cleanCancel()
+	}
 	panicked = false
 	return
 }
